@@ -2,3 +2,5 @@
 pub mod cal;
 pub mod rule;
 pub mod zone;
+pub mod tzstr;
+pub mod tzif;
